@@ -13,7 +13,8 @@
 From Coq Require Import List NArith ZArith Arith Bool Lia.
 From GmsmVerif Require Import Gen.DecConsts Lib.Outcome Dec.Access Dec.AccessProofs Dec.DecSpec
   Dec.BerModel Dec.BerProofs Dec.BerDer Dec.BerFuel Dec.BerSize Dec.ByteModels Dec.ByteProofs
-  Dec.Asn1Model Dec.Asn1Proofs Dec.Asn1Inst Dec.Asn1InstProofs.
+  Dec.Asn1Model Dec.Asn1Proofs Dec.Asn1Inst Dec.Asn1InstProofs Dec.Asn1DerLink.
+From GmsmVerif Require SM2.DER.
 Import ListNotations.
 Local Open Scope nat_scope.
 
@@ -263,6 +264,25 @@ Theorem C18_asn1_cost :
     (forall v rest st, Unmarshal certOuterSchema noParams b = Ok (v, rest, st) -> (st <= 12)%N).
 Proof. exact asn1_cost. Qed.
 Print Assumptions C18_asn1_cost.
+
+(* one statement instead of two models: this reader and the functional model of the SM2 family (SM2/DER.v, used by
+   C01 / C02 / C14) decode the same values and reject the same inputs, for every well-formed byte string *)
+Theorem C18_asn1_agrees_with_sm2_der_cipher :
+  forall b, bytes_ok b ->
+    DER.asn1_unmarshal_cipher b =
+    match Unmarshal cipherSchema noParams b with
+    | Ok (VStruct _ [VInt x; VInt y; VBytes h; VBytes c], _, _) => Some (x, y, h, c)
+    | _ => None
+    end.
+Proof. exact cipher_models_agree. Qed.
+Print Assumptions C18_asn1_agrees_with_sm2_der_cipher.
+
+(* ... and for SEQUENCE { r, s } read with the same primitives (asn1_read, asn1_read_int of SM2/DER.v) *)
+Theorem C18_asn1_agrees_with_sm2_der_sig :
+  forall b, bytes_ok b ->
+    der_asn1_sig b = match signDataToSignDigit b with Ok rs => Some rs | _ => None end.
+Proof. exact sig_models_agree. Qed.
+Print Assumptions C18_asn1_agrees_with_sm2_der_sig.
 
 Example C18_asn1_examples :
   signDataToSignDigit [48;6;2;1;5;2;1;7]%N = Ok (5%Z, 7%Z) /\
